@@ -28,7 +28,10 @@ func init() {
 	})
 }
 
-func c05Run(rc *simrt.RunCtx, faults bool) {
+func c05Run(rc *simrt.RunCtx, faults bool) { c05RunX(rc, faults, false) }
+
+// c05RunX: with inject set the relay also delivers forged messages (C07).
+func c05RunX(rc *simrt.RunCtx, faults, inject bool) {
 	pr := newPrng(rc.Seed())
 	installEphemeralGen(pr)
 	healAt := time.Duration(0)
@@ -36,6 +39,9 @@ func c05Run(rc *simrt.RunCtx, faults bool) {
 	if faults {
 		healAt = time.Duration(5+rc.Pick(60, "relay.heal")) * time.Second
 		rf = swarmRelay(rc, healAt)
+		if inject {
+			rf.injectPm = []int{20, 60, 150}[rc.Pick(3, "relay.k.inject")]
+		}
 	} else {
 		rf = relayFaults{latMin: time.Millisecond, latMax: time.Duration(2+rc.Pick(30, "relay.latmax")) * time.Millisecond}
 	}
@@ -101,7 +107,12 @@ func c05Run(rc *simrt.RunCtx, faults bool) {
 			atThird = &a
 		}
 	}
-	if !ok && !rc.Failed() {
+	if !ok && !rc.Failed() && inject {
+		// GBN packets are not authenticated: a forged ACK makes the sender
+		// forget data the peer never got, and nothing above can notice. With
+		// forgeries in play only safety is judged (no crash, no wrong bytes).
+		rc.Probe("c07.no-completion-after-forgery")
+	} else if !ok && !rc.Failed() {
 		end := activity()
 		cs, cc := st.S.current(), st.C.current()
 		desc := func(sd *stackSide, in *instance) string {
@@ -130,6 +141,12 @@ func c05Run(rc *simrt.RunCtx, faults bool) {
 			} else {
 				rc.Probe("c05.half-paired-visible-failure")
 			}
+		} else if ck > 0 && sk > 0 && c05StuckOnOldRendezvous(st, cc) {
+			// recorded finding (C11): the server ended the pairing connection
+			// and left the old rendezvous; the client's old connection never
+			// fails because its send/recv callbacks retry "stream not found"
+			// forever
+			rc.Violate("c05.silent-stall", "client-stuck-on-old-rendezvous", "both sides paired and the server moved to the key-derived rendezvous, but the client's connection on the passphrase-derived one is still open and idle (%s): it never fails, so nothing re-dials", desc(st.C, cc))
 		} else if atThird != nil && *atThird == end {
 			rc.Violate("c05.silent-stall", "no-activity", "relay reliable since %v; in the last %v nothing happened at all (no bytes moved, no error surfaced, no new Accept/Dial) and no connection opened after the last fault completed its transfer. %s; %s", healAt, suffix/3, desc(st.S, cs), desc(st.C, cc))
 		} else {
@@ -193,4 +210,25 @@ func tail(s []string, n int) []string {
 		return s[len(s)-n:]
 	}
 	return s
+}
+
+// c05StuckOnOldRendezvous: the client's current connection is open, has not
+// failed, and uses stream ids that are not the ones the server now listens on.
+func c05StuckOnOldRendezvous(st *stack, cc *instance) bool {
+	if cc == nil {
+		return false
+	}
+	x := st.C.snapshot(cc)
+	if x.failed != nil || x.closedAt != 0 {
+		return false
+	}
+	raw, ok := x.raw.(*ClientConn)
+	if !ok {
+		return false
+	}
+	ss, err := st.S.data.SID()
+	if err != nil {
+		return false
+	}
+	return raw.sendSID != GetSID(ss, false)
 }
